@@ -41,7 +41,7 @@ def mask_strategy():
     })
 
 
-def make_model(case, rng, walk=True, noise=True):
+def make_model(case, rng, walk=True, noise=True, off=0.0):
     """EstimationModel + matching simulator parameter values for the mask."""
     from pyins import inertial_sensor as isn
     bias_on = np.array([b > 0 for b in case['bias']])
@@ -68,6 +68,8 @@ def make_model(case, rng, walk=True, noise=True):
             return None
         if form == 'scalar' and on.all():
             return float(v.flat[0])
+        if off:                 # "a non-positive element disables the effect for the corresponding axis": switched-off entries
+            v = np.where(on, v, off)      # written as a negative number instead of zero
         if form == 'list':
             return v.tolist()
         return v.copy()
@@ -150,6 +152,11 @@ def run_algebra(case, ctx):
     ctx.label(f"type={case['sensor_type']}", f"form={case['form']}", f'n_bias={int(bias_on.sum())}', f'n_walk={int(walk_on.sum())}',
               f'n_sm={"0" if not sm_on.any() else "1-3" if sm_on.sum() <= 3 else "4-9"}', f'n_noise={int(noise_on.sum())}')
     check_layout(ctx, model, bias_on, walk_on, noise_on, sm_on, bias_sd, walk_sd, noise_sd, sm_sd)
+    # the same mask with the switched-off axes given as negative numbers (documented: non-positive disables): same layout
+    if case['sub'] % 2 == 0 and case['form'] != 'scalar':
+        res_neg = ctx.sut(make_model, case, np.random.RandomState(case['sub']), True, True, -float(1 + case['sub'] % 3))
+        check_layout(ctx, res_neg[0], *res_neg[1:])
+        ctx.label('off_entries=negative')
     names = list(model.states)
     # simulator parameters: exactly the enabled ones are non-zero
     T = np.eye(3) + np.where(sm_on, rng.uniform(0.01, 0.2, (3, 3)) * rng.choice([-1, 1], (3, 3)), 0.0)
